@@ -45,6 +45,7 @@ pub fn machines(opts: &Opts) -> Vec<MCfg> {
         Tier::Thorough => {
             out.push(mk("pool/N2P2D2", Bounds { builds: 2, passes: 2, clears: 1, drops: 2, clones: 1, fetches: 1, updates: 1, depth: 6, ..Bounds::default() }, ops_a.clone(), 5));
             out.push(mk("ops/N2P2D2", Bounds { builds: 2, passes: 2, drops: 2, depth: 6, ..Bounds::default() }, ops_b.clone(), 5));
+            out.push(mk("ops/N3P1D3", Bounds { builds: 3, passes: 1, drops: 3, depth: 6, ..Bounds::default() }, ops_b.clone(), 6));
             out.push(mk("deep/N3P1D3", Bounds { builds: 3, passes: 1, drops: 3, depth: 7, ..Bounds::default() }, vec![OpK::Mul, OpK::Ln, OpK::Reshape(vec![6])], 6));
         }
     }
